@@ -196,10 +196,13 @@ def write_replay(pid, failure, extra=None):
 # evidence
 
 def write_evidence(pid, tier, level, coverage, assumptions, wall_s, violations):
-    os.makedirs(os.path.join(VERIF, 'evidence'), exist_ok=True)
+    # evidence of the registered checks is only ever written from runs against /repo itself; self-test runs against a
+    # scratch copy (VERIF_REPO) go to an ignored directory
+    sub = 'evidence' if repo_path() == os.path.realpath('/repo') else os.path.join('replays', 'scratch-evidence')
+    os.makedirs(os.path.join(VERIF, sub), exist_ok=True)
     doc = dict(property_id=pid, tier=tier, seed=seed(), level=level, coverage=coverage,
                assumptions=assumptions, wall_s=round(wall_s, 2), violations=violations)
-    path = os.path.join(VERIF, 'evidence', pid + '.json')
+    path = os.path.join(VERIF, sub, pid + '.json')
     tmp = path + '.tmp'
     with open(tmp, 'w') as f:
         json.dump(doc, f, indent=1, default=repr)
